@@ -42,7 +42,8 @@ def parse(lines: T.Iterable[str]) -> T.List[T.Tuple[T.List[str], T.List[str]]]:
                     in_deps = False
                 continue
             elif c == ':':
-                targets.append(out)
+                if out != '':
+                    targets.append(out)
                 out = ''
                 in_deps = True
                 continue
